@@ -12,10 +12,10 @@ class Prop:
     PROPS_FILE = 'props/C13.v'
     PROPS_FILES = ['props/C13.v', 'props/C13cluster.v']
     SUITES = [NodeSuite(evals={'mismatches': 'mismatches', 'spec_violations': 'spec_violations_c13'},
-                        quick=(800, 60), thorough=(15000, 300)),
+                        quick=(800, 60), thorough=(5000, 150)),
               # the handshake glue (real SupervisorProxy.check_instance / _is_authorized against the real remote
               # RPCInterface, slow handshakes included) is tied to Cluster.v here
-              ClusterSuite(evals={'mismatches': 'cmismatches'}, quick=(60, 150), thorough=(1500, 500)),
+              ClusterSuite(evals={'mismatches': 'cmismatches'}, quick=(60, 150), thorough=(400, 300)),
               # process-plane clause: events only from admitted peers (model/Replication.v, theorems in props/C12.v)
               ReceiverSuite()]
     RULE = base.Prop.RULE
